@@ -5,5 +5,6 @@ AllowWait == [c \in Clients |-> IF c = 1 THEN {"set", "del"} ELSE {"wait"}]
 AllowWait2 == [c \in Clients |-> IF c = 1 THEN {"set"} ELSE {"wait"}]
 AllowClose == [c \in Clients |-> IF c = 1 THEN {"close"} ELSE IF c = 2 THEN {"set"} ELSE {"wait"}]
 AllowSeq == [c \in Clients |-> {"set", "del", "get", "wait"}]
+AllowAllW == [c \in Clients |-> {"set", "del", "wait"}]
 AllowTime == [c \in Clients |-> IF c = 1 THEN {"set"} ELSE {"get"}]
 =============================================================================
